@@ -28,6 +28,10 @@ L1(e, prev) ==
   \cup (IF e.server /\ ~prev.server /\ prev.fw THEN {"C18_ServerOnlyWhenConfirmed"} ELSE {})
      \* at the end of a plan (everything settled): reported = recorded = reachable address  =>  confirmed
   \cup (IF e.last /\ e.vote = "A" /\ e.pub = "A" /\ e.active = 0 /\ e.fw THEN {"C18_ConfirmsWhenReachable"} ELSE {})
+     \* ... and when nobody ever reported anything but the reachable address (however few of the responders report one at all), it
+     \* IS recorded and confirmed by the end: the bootstrap lookup alone has finished with such reports
+  \cup (IF e.last /\ e.active = 0 /\ (\A i \in 1..Len(e.plan) : e.plan[i] # "voteB") /\ (e.pub # "A" \/ e.fw)
+        THEN {"C18_ConfirmsWhenReachable"} ELSE {})
      \* ... and a node that was told an unreachable address stays a firewalled client
   \cup (IF e.pub = "B" /\ ~e.fw THEN {"C18_UnreachableStaysFirewalled"} ELSE {})
   \cup (IF e.panicked THEN {"C18_NoPanic"} ELSE {})
